@@ -729,7 +729,17 @@ package consensus
 //@   requires s.Network != nil
 
 //@ func (State).WholeSigHash
-//@   prop C10 C03
+//@   prop C10 C03 C12
+//@   ghost k int
+//@   preimage covers s.replayPrefix() when len(txn.SiacoinInputs) > 0
+//@   preimage covers s.replayPrefix() when len(txn.SiafundInputs) > 0
+//@   preimage covers txn.SiacoinInputs[k] when 0 <= k && k < len(txn.SiacoinInputs)
+//@   preimage covers txn.SiacoinOutputs[k] when 0 <= k && k < len(txn.SiacoinOutputs)
+//@   preimage covers txn.SiafundInputs[k] when 0 <= k && k < len(txn.SiafundInputs)
+//@   preimage covers txn.SiafundOutputs[k] when 0 <= k && k < len(txn.SiafundOutputs)
+//@   preimage covers parentID
+//@   preimage covers pubkeyIndex
+//@   preimage covers timelock
 //@   requires @covered-signatures-in-range idxInRange(coveredSigs, len(txn.Signatures))
 //@   requires s.Network != nil
 
